@@ -38,7 +38,8 @@
 //                       "config":..} and exit (the monitor builds its seed corpus from this)
 //   FZ_SCRIPT_TRACE=1   print every decoded command, its return code and the head of its result to stderr
 //   FZ_SCRIPT_STATS=dir write dir/<pid>.stats ("name well-formed-calls malformed-calls ok-returns" per
-//                       command, "#inputs N", "#commands N", "#steps N") every 256 inputs and at exit
+//                       command, "#inputs N", "#commands N", "#steps N") every FZ_SCRIPT_STATS_EVERY (256)
+//                       inputs and at exit
 #include <cerrno>
 #include <cmath>
 #include <cstdint>
@@ -106,6 +107,7 @@ struct stat_t {
 };
 std::map<std::string, stat_t> stats;
 long n_inputs = 0, n_commands = 0, n_steps = 0;
+long stats_every = 256;
 
 char const *const OBJ_COLVARS[] = {"d", "v"};
 char const *const OBJ_BIASES[] = {"harmonic1", "metadynamics1"};
@@ -429,6 +431,8 @@ std::string read_value(reader &rd, std::string const &last_result, std::string c
 extern "C" int LLVMFuzzerInitialize(int *, char ***)
 {
   if (getenv("FZ_SCRIPT_STATS")) stats_dir = getenv("FZ_SCRIPT_STATS");
+  if (getenv("FZ_SCRIPT_STATS_EVERY")) stats_every = atol(getenv("FZ_SCRIPT_STATS_EVERY"));
+  if (stats_every < 1) stats_every = 1;
   build_values();
   // scratch directory, created once
   {
@@ -580,6 +584,6 @@ extern "C" int LLVMFuzzerTestOneInput(const uint8_t *data, size_t size)
     abort();
   }
   delete_engine(px);
-  if ((n_inputs & 255) == 0) write_stats();
+  if ((n_inputs % stats_every) == 0) write_stats();
   return 0;
 }
